@@ -42,7 +42,7 @@ shards = 12
 args = [exe, "-work", work, "-out", prefix, "-seed", str(ck.seed), "-shards", str(shards),
         "-testdata", os.path.join(REPO, "unused/testdata/src/example.com")]
 if ck.thorough():
-    args += ["-gen", "900", "-maxnodes", "9000",
+    args += ["-gen", "2000", "-maxnodes", "9000",
              "-corpus", REPO + ":./unused+./pattern+./config+./lintcmd/...+./analysis/...+./go/ir+./staticcheck/...+./simple/...+./stylecheck/..."]
 else:
     args += ["-gen", "80", "-maxnodes", "1500", "-corpus", REPO + ":./unused+./config+./pattern"]
